@@ -399,6 +399,9 @@ where
     Ok(match range {
         None => u.arbitrary::<T>()?,
         Some((l, r)) => {
+            if l > r {
+                return Err(Error::msg(format!("invalid range [{l}, {r}]")));
+            }
             let min = T::min_value();
             let max = T::max_value();
             let l = T::try_from(l).unwrap_or(min);
